@@ -376,6 +376,10 @@ func errNonNilEdges(ev ssa.Value) []core.Edge {
 	if ev == nil {
 		return nil
 	}
+	// a variable captured by a closure lives in memory: `*errp = ev; t = *errp; if t != nil`
+	for _, al := range storedAndReloaded(ev) {
+		out = append(out, errNonNilEdges(al)...)
+	}
 	for _, ce := range core.NilTestEdges(ev) {
 		if !ce.Val {
 			out = append(out, ce.E)
@@ -503,4 +507,48 @@ func handlerByName(w *core.World, r *core.Report, name string) *ssa.Function {
 		}
 	}
 	return nil
+}
+
+// storedAndReloaded returns the loads `t = *a` that must yield v: v is stored to the local
+// allocation a, and the load follows that store in the same block with no other store to a between.
+func storedAndReloaded(v ssa.Value) []ssa.Value {
+	var out []ssa.Value
+	refs := v.Referrers()
+	if refs == nil {
+		return nil
+	}
+	for _, u := range *refs {
+		st, ok := u.(*ssa.Store)
+		if !ok || st.Val != v {
+			continue
+		}
+		a, ok := st.Addr.(*ssa.Alloc)
+		if !ok {
+			continue
+		}
+		b := st.Block()
+		after := false
+		for _, in := range b.Instrs {
+			if in == ssa.Instruction(st) {
+				after = true
+				continue
+			}
+			if !after {
+				continue
+			}
+			if s2, ok := in.(*ssa.Store); ok && s2.Addr == ssa.Value(a) {
+				break
+			}
+			if _, isCall := in.(ssa.CallInstruction); isCall {
+				// a call may run a closure that assigns the captured variable
+				if a.Heap {
+					break
+				}
+			}
+			if ld, ok := in.(*ssa.UnOp); ok && ld.Op == token.MUL && ld.X == ssa.Value(a) {
+				out = append(out, ld)
+			}
+		}
+	}
+	return out
 }
